@@ -550,6 +550,8 @@ class Ex:
                 key = (obj.id, m[2])
                 if key in self.heap:
                     self.heap[key] = self._havoc_val(self.heap[key], m[2])
+            elif m[0] == "call":
+                m[1](self)
             else:
                 raise Unsupported(f"modifies {m}")
 
@@ -662,6 +664,7 @@ class Ex:
                 pass
             except _Break:
                 return
+            self.cover(f"loop{ordn}.end")
             for nm, f in ls.inv(self, None):
                 self.oblige(f"loop{ordn}.preserved[{nm}]", f, kind="inv-preserved", site=ls.fingerprint or "")
             raise PathEnd()
@@ -753,6 +756,9 @@ class Ex:
         else:
             raise Unsupported(f"del item on {cont!r}")
         self.assign(_as_store(t.value), new)
+        h = getattr(self.spec, "on_mutation", None)
+        if h is not None:
+            h(self, self.site(t.value), "del", t, (cont, idx))
 
     def implicit_exc(self, cls, ok, site):
         """An operation that raises `cls` unless `ok`."""
